@@ -408,9 +408,26 @@ def run_c17(ck):
                     hit = True
         return hit
 
+    def local_into_textual_macro(P):
+        # syntactic witness for the known finding F45: a macro passes one of its by-value locals, `{d}`, to another
+        # macro, and that macro substitutes the parameter textually into its own asm block
+        macros = {r["pat"][0]["lc"]: r for r in P["rules"] if r["prod"].get("k") == "asm"}
+        textual = {n for n, r in macros.items()
+                   if any(t["k"] == "ph" and t["s"] not in {a["name"] for a in r["prod"].get("assigns") or []}
+                          for ln in r["prod"]["lines"] if ln["k"] == "instr" for t in ln["toks"])}
+        for n, r in macros.items():
+            locs = {a["name"] for a in r["prod"].get("assigns") or []}
+            for ln in r["prod"]["lines"]:
+                if ln["k"] == "instr" and ln["toks"] and ln["toks"][0].get("lc") in textual and \
+                        any(t["k"] == "ph" and t["s"] in locs for t in ln["toks"][1:]):
+                    return True
+        return False
+
     for case in sorted(failed):
         for tag in sorted(set(failed[case])):
-            if tag == "rejected-but-accepted-by-rules" and forward_label_in_macro_call(progs[case]):
+            if tag == "rejected-but-accepted-by-rules" and local_into_textual_macro(progs[case]):
+                tag += ":local-passed-into-textual-macro"
+            elif tag == "rejected-but-accepted-by-rules" and forward_label_in_macro_call(progs[case]):
                 tag += ":macro-call-with-forward-label"
             ck.violation("TraceAsm:C17:" + tag, {"verdict": tag, "source": jobs[case]["files"]["main.asm"],
                                                  "observed_ok": not results[case].get("error"),
@@ -420,7 +437,8 @@ def run_c17(ck):
     ck.nontrivial = set(range(len(events) - skipped))
     ck.assumptions += ["an asm block is specified as its lines assembled in place (textual substitution of arguments, positions advancing, "
                        "block labels visible to its lines): by construction what writing the lines in place of the call produces",
-                       "macro productions are a bare `asm { }` block (no local variables around it); sizes must be syntactically static"]
+                       "macro productions are an `asm { }` block, optionally preceded by assignments to local variables (`{d}` then passes the value); "
+                       "sizes must be syntactically static"]
     return ck.finish(rule="random instruction sets extended with macro rules over 1-3 base instructions (typed and untyped parameters, placeholders in "
                           "operand positions, block labels, macros using macros, self-recursive macros) and user functions (binary, nested calls, "
                           "recursion, conditionals) used in productions and data; distinct = program index minus skipped")
